@@ -1,3 +1,4 @@
 import PyOak.Props.GenBridge
 import PyOak.Props.C07Main
 import PyOak.Props.C07Parse
+import PyOak.Props.C07Agree
